@@ -10,6 +10,7 @@
 From Coq Require Import ZArith List.
 From Verif Require Import Lib.Params Spec.Hades Spec.Grain Spec.PoseidonRef Model.Outcome Model.Poseidon
   Proofs.PoseidonConforms Model.LimbPrograms Proofs.LimbCompose.
+From Verif Require Gen.BigIntLoops Proofs.BigIntEqLoopsPoseidon Proofs.BigIntEqLoopsBridge Proofs.PoseidonConforms Gen.CurveConsts.
 Import ListNotations.
 Local Open Scope Z_scope.
 
@@ -78,7 +79,21 @@ Theorem C01_limb_level : forall inputs cap nOuts,
   = HashWithStateEx q 8 gen_tables inputs cap nOuts.
 Proof. exact (HashWithStateEx_limbs_correct 8 gen_tables). Qed.
 
+(* ---- the LOOPS of the Go source: tools/bigintgen re-translates the whole functions, loops
+   included, at every run (Gen/BigIntLoops.v: a Go `for` becomes a fold over its index range
+   with the loop-carried variables as accumulator); the translated function equals the model
+   the theorems above are about ---- *)
+Theorem C01_loops_are_the_source : forall inpBI initState nOuts,
+  BigIntLoops.poseidon_HashWithStateEx
+    (map BigIntEqLoopsPoseidon.tC PoseidonConforms.gen_tables)
+    (map BigIntEqLoopsPoseidon.tS PoseidonConforms.gen_tables)
+    (map BigIntEqLoopsPoseidon.tM PoseidonConforms.gen_tables)
+    (map BigIntEqLoopsPoseidon.tP PoseidonConforms.gen_tables) inpBI initState nOuts =
+  Poseidon.HashWithStateEx Gen.CurveConsts.Q 8 PoseidonConforms.gen_tables inpBI initState nOuts.
+Proof. exact BigIntEqLoopsBridge.gen_poseidon_HashWithStateEx_gen_tables_eq. Qed.
+
 Print Assumptions C01_reference_is_grain.
 Print Assumptions C01_limb_level.
 Print Assumptions C01_poseidon_conforms.
 Print Assumptions C01_hash_conforms.
+Print Assumptions C01_loops_are_the_source.
